@@ -62,5 +62,7 @@ bool linearizable(const std::vector<Op>& ops, const Model& init) {
     return lin_rec(ops, used, nd, init);
 }
 
+// let library worker threads run until they all sleep (or park); bounded
+inline void settle(int max_yields = 2000) { for (int i = 0; i < max_yields && !vf_others_idle(); i++) vf_yield(); }
 inline bool streq(const char* a, const char* b) { return !strcmp(a, b); }
 } // namespace vfh
